@@ -20,6 +20,8 @@ pub struct Parser<'a> {
     no_in: bool,
     /// Current nesting of statements, expressions, patterns and types being parsed
     depth: usize,
+    /// Height of the tree built so far inside the current recursive step (see `link`)
+    height: usize,
     /// Address of a local of the outermost recursive step (0 until then)
     stack_base: usize,
 }
@@ -43,6 +45,7 @@ impl<'a> Parser<'a> {
             previous: Token::eof(0, 1, 1),
             no_in: false,
             depth: 0,
+            height: 0,
             stack_base: 0,
         }
     }
@@ -66,9 +69,29 @@ impl<'a> Parser<'a> {
             ));
         }
         self.depth += 1;
+        let outer_height = std::mem::replace(&mut self.height, 0);
         let result = parse(self);
         self.depth -= 1;
+        // What this step built is one level taller than the tallest thing built inside it
+        self.height = outer_height.max(self.height + 1);
         result
+    }
+
+    /// Account for one more level of a tree that a loop builds without recursing
+    /// (`a + a + ...`, `a.b.b...`, `f()()...`, `x as T as T...`, `T[][]...`). The parser's
+    /// stack stays flat for these, but every later walk of the tree - compiling it,
+    /// dropping it - recurses once per level, so their height is limited like nesting is.
+    #[inline]
+    fn link(&mut self) -> Result<(), JsError> {
+        self.height += 1;
+        if self.height > MAX_NESTING {
+            return Err(JsError::syntax_error(
+                "Too much nesting",
+                self.current.span.line,
+                self.current.span.column,
+            ));
+        }
+        Ok(())
     }
 
     /// Helper to intern a string in the dictionary
@@ -2274,6 +2297,7 @@ impl<'a> Parser<'a> {
             // Save the operator token kind before advancing (needed for logical op detection)
             let op_token_kind = self.current.kind.clone();
             self.advance();
+            self.link()?;
 
             // Right associativity for ** operator
             let next_prec = if op == BinaryOp::Exp { prec } else { prec + 1 };
@@ -2463,6 +2487,7 @@ impl<'a> Parser<'a> {
         let optional_chain_start = start;
 
         loop {
+            self.link()?;
             // Check for call with either ( or < (type arguments)
             if self.check(&TokenKind::LParen) || self.check(&TokenKind::Lt) {
                 // Try to parse as call with type arguments
@@ -2632,6 +2657,7 @@ impl<'a> Parser<'a> {
                 break;
             }
             self.advance();
+            self.link()?;
             // Handle "as const" - const assertion (TypeScript 3.4+)
             // This is a compile-time feature; at runtime we just return the value unchanged
             if !is_satisfies && self.match_token(&TokenKind::Const) {
@@ -2657,6 +2683,7 @@ impl<'a> Parser<'a> {
 
         // Handle member access chain (.prop, [expr])
         loop {
+            self.link()?;
             if self.match_token(&TokenKind::Dot) {
                 if self.match_token(&TokenKind::Hash) {
                     let name = self.parse_private_identifier()?;
@@ -3781,6 +3808,7 @@ impl<'a> Parser<'a> {
                 });
                 // Array shorthand: keyof T[]
                 while self.check(&TokenKind::LBracket) {
+                self.link()?;
                     self.advance();
                     if self.check(&TokenKind::RBracket) {
                         self.advance();
@@ -3833,6 +3861,7 @@ impl<'a> Parser<'a> {
                 });
                 // Array shorthand: any[]
                 while self.check(&TokenKind::LBracket) {
+                self.link()?;
                     self.advance();
                     self.require_token(&TokenKind::RBracket)?;
                     ty = TypeAnnotation::Array(ArrayType {
@@ -3850,6 +3879,7 @@ impl<'a> Parser<'a> {
                 });
                 // Array shorthand: unknown[]
                 while self.check(&TokenKind::LBracket) {
+                self.link()?;
                     self.advance();
                     self.require_token(&TokenKind::RBracket)?;
                     ty = TypeAnnotation::Array(ArrayType {
@@ -3867,6 +3897,7 @@ impl<'a> Parser<'a> {
                 });
                 // Array shorthand: never[]
                 while self.check(&TokenKind::LBracket) {
+                self.link()?;
                     self.advance();
                     self.require_token(&TokenKind::RBracket)?;
                     ty = TypeAnnotation::Array(ArrayType {
@@ -3884,6 +3915,7 @@ impl<'a> Parser<'a> {
                 });
                 // Array shorthand: void[]
                 while self.check(&TokenKind::LBracket) {
+                self.link()?;
                     self.advance();
                     self.require_token(&TokenKind::RBracket)?;
                     ty = TypeAnnotation::Array(ArrayType {
@@ -3901,6 +3933,7 @@ impl<'a> Parser<'a> {
                 });
                 // Array shorthand: null[]
                 while self.check(&TokenKind::LBracket) {
+                self.link()?;
                     self.advance();
                     self.require_token(&TokenKind::RBracket)?;
                     ty = TypeAnnotation::Array(ArrayType {
@@ -3933,6 +3966,7 @@ impl<'a> Parser<'a> {
 
                     // Array shorthand: string[]
                     while self.check(&TokenKind::LBracket) {
+                self.link()?;
                         self.advance();
                         self.require_token(&TokenKind::RBracket)?;
                         ty = TypeAnnotation::Array(ArrayType {
@@ -3948,6 +3982,7 @@ impl<'a> Parser<'a> {
 
                     // Array shorthand or indexed access type
                     while self.check(&TokenKind::LBracket) {
+                self.link()?;
                         self.advance();
                         if self.check(&TokenKind::RBracket) {
                             // Array type: T[]
@@ -3995,6 +4030,7 @@ impl<'a> Parser<'a> {
 
                 // Array shorthand: { a: number }[]
                 while self.check(&TokenKind::LBracket) {
+                self.link()?;
                     self.advance();
                     self.require_token(&TokenKind::RBracket)?;
                     ty = TypeAnnotation::Array(ArrayType {
@@ -4023,6 +4059,7 @@ impl<'a> Parser<'a> {
                 });
                 // Array shorthand: [string, number][]
                 while self.check(&TokenKind::LBracket) {
+                self.link()?;
                     self.advance();
                     self.require_token(&TokenKind::RBracket)?;
                     ty = TypeAnnotation::Array(ArrayType {
@@ -4056,6 +4093,7 @@ impl<'a> Parser<'a> {
 
                 // Array shorthand: (number | undefined)[]
                 while self.check(&TokenKind::LBracket) {
+                self.link()?;
                     self.advance();
                     self.require_token(&TokenKind::RBracket)?;
                     ty = TypeAnnotation::Array(ArrayType {
